@@ -110,8 +110,8 @@ def run_cli(src: Path, opts: Opts | None = None, *, out: Path | None = None, has
     env = {k: v for k, v in os.environ.items() if k not in ("PYTHONHASHSEED", "PYTHONPATH")}
     env["PYTHONHASHSEED"] = str(hashseed)
     env["PYTHONDONTWRITEBYTECODE"] = "1"
-    if pythonpath:
-        env["PYTHONPATH"] = pythonpath
+    if pythonpath or os.environ.get("VERIF_SRC"):
+        env["PYTHONPATH"] = pythonpath or os.environ["VERIF_SRC"]
     r = Run(src=Path(src), out=Path(out_abs), opts=opts,
             env={"hashseed": hashseed, "globperm": globperm, "cwd": str(cwd), "spelling": spelling})
     t0 = time.time()
